@@ -7,6 +7,7 @@ import (
 
 	dyaml "github.com/vimeo/dials/decoders/yaml"
 	"github.com/vimeo/dials/ptrify"
+	"verifharness/internal/cfgdoc"
 	"verifharness/internal/coqfmt"
 )
 
@@ -31,12 +32,12 @@ func debugCase(line string) {
 		bad = 1
 	}
 	d := genDoc(r, T, &bad)
-	if d.kind != dMap {
+	if d.Kind != dMap {
 		d = dM()
 	}
-	sp = nil
+	cfgdoc.Sp = nil
 	if spellState := r.U64(); spellState%3 != 0 {
-		sp = coqfmt.NewRng(spellState)
+		cfgdoc.Sp = coqfmt.NewRng(spellState)
 	}
 	fmt.Println(T)
 	for f := 0; f < 4; f++ {
@@ -60,7 +61,7 @@ func debugCase(line string) {
 			gd, gerr, out := genericParse(f, text)
 			fmt.Println("generic:", gerr, out)
 			if gd != nil {
-				fmt.Println(gd.term())
+				fmt.Println(gd.Term())
 			}
 		}
 	}
